@@ -11,6 +11,16 @@ CHECKS = {
          "Every shape of a finite universe (7 types x 6 layouts + NoLayout empties, <=3 parts of size 0..2, <=3 polygons of <=2 rings), built three ways (SetCoords, New*Flat, Push) and cloned, with a 9-value special-float sweep at every ordinate position and every single-coordinate length mismatch, is executed on the real constructors and compared bit for bit with the model; complete for the stated bounds, not sampled.",
          "Bounded: parts <=3, sizes <=2, one special float per geometry. Trusted: ref.WellFormed/Observe (public accessors only), Go runtime.",
          "DESIGN.md section 2, C01"),
+ "C02": ("model_checking",
+         "explicit-state BFS over operation histories on the real objects (successor = fresh object + replay + one op) against a list-of-parts model",
+         "All operation histories up to depth 5 (quick) / 6 (thorough) over Push(part menu incl. empty parts and the receiver's own part accessors), Push(wrong layout), Reverse, Swap, Clone (and variadic Push / SetLayout for collections) are executed on real Polygon, MultiPoint, MultiLineString, MultiPolygon and GeometryCollection values; every reached state is compared with the reference list model (count, each part accessor, whole Coords, well-formedness, failed Push leaves the state unchanged). States are deduplicated on the complete observable state, so the reported states/transitions are the explored graph.",
+         "Bounded: depth <=6, parts of <=3 coordinates, 3-5 layouts. State merging assumes operations depend only on observable state (argued in DESIGN.md 1.2).",
+         "DESIGN.md section 2, C02"),
+ "C09": ("exploration",
+         "bounded exhaustive enumeration of grid geometries against rational-arithmetic measures",
+         "Every closed ring of 3-4 free vertices on a small integer grid, every polyline of <=3 grid points, and every sequence of <=3 rings/polygons/lines over menus that include empty rings, empty polygons and degenerate rings, in 6 layouts and exact power-of-two scalings, has Area and Length computed by the real methods and compared with exact rational shoelace sums and 256-bit square-root sums under a forward error bound; additivity is checked against the part accessors and panics are violations.",
+         "Bounded: <=3 parts, grid 4x4, scalings 2^-100..2^200. Area compared on closed rings only. Trusted: math/big.",
+         "DESIGN.md section 2, C09"),
 }
 
 def main():
